@@ -90,7 +90,18 @@ def pairwise(factors):
 
 def cases(tier, seed):
     if tier == "quick":
-        rows = pairwise(FACTORS)
+        # dry_run masks every other option (nothing is optimised or written): the covering array is built over
+        # the remaining factors and every row is run for real; dry-run rows are added separately (they are cheap)
+        real_factors = [f for f in FACTORS if f[0] != "dry_run"]
+        rows = [dict(r, dry_run=False) for r in pairwise(real_factors)]
+        cluster = ["outdir", "strategy", "plot_energy", "plot_minisanity", "export"]
+        for r in rows:
+            # output-related options only act with an output directory: give such rows one, so that their pairs
+            # with the other factors are effective and not masked
+            if (not r["outdir"]) and (r["plot_energy"] or r["plot_minisanity"] or r["export"] or r["resume_finished"]
+                                      or r["strategy"] != "latest"):
+                r["outdir"] = True
+        dry_rows = [dict(r, dry_run=True) for r in rows[::3]]
         # each single-factor deviation from the all-default configuration as well (simplest first)
         default = {n: v[0] for n, v in FACTORS}
         singles = [dict(default)]
@@ -98,11 +109,13 @@ def cases(tier, seed):
             for alt in v[1:]:
                 singles.append(dict(default, **{n: alt}))
         # full product over the output cluster (interacting options that only matter together), rest default
-        cluster = ["outdir", "strategy", "plot_energy", "plot_minisanity", "export"]
         fd = dict(FACTORS)
         prod = [dict(default, **dict(zip(cluster, combo))) for combo in itertools.product(*[fd[n] for n in cluster])]
         prod = [r for r in prod if r["outdir"] or not (r["plot_energy"] or r["plot_minisanity"] or r["export"] or r["strategy"] != "latest")]
-        rows = singles + prod + rows
+        # full product over the options that steer WHAT is optimised (interact through branches of the driver)
+        steer = ["n_samples", "constants", "point_estimates", "geovi"]
+        prod2 = [dict(default, **dict(zip(steer, combo))) for combo in itertools.product(*[fd[n] for n in steer])]
+        rows = singles + prod + prod2 + rows + dry_rows
     else:
         names = [f[0] for f in FACTORS]
         rows = []
@@ -203,10 +216,18 @@ def run(case):
             # constants untouched
             if c["constants"]:
                 m = mean if mean is not None else sl.average()
-                if not np.array_equal(m["a"].asnumpy(), pos["a"].asnumpy()) and c["n_samples"] == "0":
-                    return bad("constant key 'a' changed during optimisation", finding_key="constant-changed")
-                if mean is not None and not np.array_equal(mean["a"].asnumpy(), pos["a"].asnumpy()):
-                    return bad("constant key 'a' changed in the returned mean", finding_key="constant-changed")
+                if not np.allclose(m["a"].asnumpy(), pos["a"].asnumpy(), rtol=0, atol=1e-12) and not c["point_estimates"] \
+                        and c["transitions"] != "identity" and not c["geovi"]:
+                    # with mirrored MGVI samples (or MAP) the sample mean of a constant key is its constant value; geoVI samples
+                    # are not exact mirror images, so only the returned mean is demanded there
+                    return bad("constant key 'a' changed during optimisation (n_samples=%s)" % c["n_samples"],
+                               finding_key="constant-changed|n_samples=%s" % c["n_samples"])
+                # bit-identical, except when the harness' own transition replaces the mean by the sample average
+                # (round-off of (m+r + m-r)/2)
+                same = np.array_equal(mean["a"].asnumpy(), pos["a"].asnumpy()) if (mean is not None and c["transitions"] != "identity") \
+                    else (mean is None or np.allclose(mean["a"].asnumpy(), pos["a"].asnumpy(), rtol=0, atol=1e-12))
+                if not same:
+                    return bad("constant key 'a' changed in the returned mean", finding_key="constant-changed|mean")
             if c["inspect"] != "none" and len(calls["inspect"]) != last_it + 1:
                 return bad("inspect callback called %d times for %d iterations" % (len(calls["inspect"]), last_it + 1),
                            finding_key="inspect-calls")
